@@ -1,0 +1,17 @@
+//go:build verif
+
+package taint
+
+import df "github.com/awslabs/ar-go-tools/analysis/dataflow"
+
+// VerifOnVisit, when set, observes the inter-procedural traversal of Visitor.Visit: "source" (a new traversal
+// starts at cur), "visit" (cur has been taken from the queue), "sink" (cur is reported as reached sink), and the
+// outcomes of addNext for the candidate next reached from cur: "validated", "nopath", "stop" (key already seen or
+// depth limit), "lasso", "add" (enqueued and marked seen).
+var VerifOnVisit func(event string, cur *df.VisitorNode, next *df.VisitorNode)
+
+func verifVisit(event string, cur *df.VisitorNode, next *df.VisitorNode) {
+	if VerifOnVisit != nil {
+		VerifOnVisit(event, cur, next)
+	}
+}
